@@ -68,6 +68,8 @@ pub enum ApiEv {
     SearchStart { node: usize, ih: [u8; 20], announce: bool },
     SearchItem { addr: SocketAddr },
     SearchEnd,
+    /// the caller dropped the stream before it ended
+    SearchDropped,
     BootCall { node: usize },
     BootDone { ok: bool },
     Sample {
@@ -206,6 +208,7 @@ impl Ev {
                     ApiEv::SearchStart { .. } => "ss",
                     ApiEv::SearchItem { .. } => "si",
                     ApiEv::SearchEnd => "se",
+                    ApiEv::SearchDropped => "sx",
                     ApiEv::BootCall { .. } => "bc",
                     ApiEv::BootDone { .. } => "bd",
                     ApiEv::Sample { .. } => "sa",
